@@ -571,12 +571,12 @@ def indices_to_json_extract(expression: exp.Expression) -> exp.Expression:
         and isinstance(index, exp.Literal)
         and index.this
     ):
+        # transform isn't applied to the children of a replaced node, so do that here for nested indices, eg: v['a']['b']
+        this = expression.this.transform(indices_to_json_extract)
         if index.is_string:
-            return exp.JSONExtract(this=expression.this, expression=exp.Literal(this=f"$.{index.this}", is_string=True))
+            return exp.JSONExtract(this=this, expression=exp.Literal(this=f"$.{index.this}", is_string=True))
         else:
-            return exp.JSONExtract(
-                this=expression.this, expression=exp.Literal(this=f"$[{index.this}]", is_string=True)
-            )
+            return exp.JSONExtract(this=this, expression=exp.Literal(this=f"$[{index.this}]", is_string=True))
 
     return expression
 
